@@ -99,3 +99,12 @@ class Driver:
             self.p.wait(timeout=5)
         except Exception:
             self.p.kill()
+
+
+def quiet_loop(sim):
+    """`sim.loop()` with the progress bar (option show_progress) kept off the check's output"""
+    import contextlib, io
+    if getattr(sim, "_show_progress", False):
+        with contextlib.redirect_stdout(io.StringIO()), contextlib.redirect_stderr(io.StringIO()):
+            return sim.loop()
+    return sim.loop()
